@@ -97,4 +97,110 @@ theorem ensembleSift_cols_le_cap (σ : Schedule) (p : Nat) (draw : ρ → Sig ×
   obtain ⟨ν, _, rfl⟩ := List.mem_map.mp hm
   exact member_le_cap X thr k fuel hk mode (some scale) x ν
 
+/-! ### complete_ensemble_sift, two models
+
+  `Sift.ceemd` / `Sift.ceemdLoop` (C03): the counter / stop logic (fewer than two peaks, cap, mean-abs
+  threshold) around an abstract ensemble step `Nx cols proto`.  `Ensemble.ceemd` (C08): the concrete
+  ensemble step (noise matrix, members, first IMFs, noise residuals, pools) iterated a given number of
+  `stages`, without any stop logic.  `stepNx` is the step of the first built from the ingredients of the
+  second; with it the C08 model run for as many stages as the C03 model decides returns the same columns. -/
+
+open Ensemble in
+/-- the ensemble step of layer `cols.length`: layer 0 uses the scaled matrix (and the scale again, as the
+    code does), layer `k+1` the `(k+1)`-fold first-IMF residual of every scaled noise column -/
+def stepNx (F Fn : Sig → Sig) (mode : Ensemble.Mode) (scale : Rat) (M : List Sig) : List Sig → Sig → Sig :=
+  fun cols proto =>
+    match cols.length with
+    | 0 => stageImf F mode (some scale) proto (M.map (Sig.smul scale))
+    | k + 1 => stageImf F mode none proto (M.map fun m => residualPow Fn (k + 1) (Sig.smul scale m))
+
+open Ensemble in
+theorem residualPow_comm (Fn : Sig → Sig) (k : Nat) (ν : Sig) :
+    residualPow Fn k (noiseResidual Fn ν) = noiseResidual Fn (residualPow Fn k ν) := by
+  induction k generalizing ν with
+  | zero => rfl
+  | succ k ih => simp only [residualPow]; rw [ih]
+
+open Ensemble in
+/-- the C03 loop over `stepNx` produces the columns of the C08 loop run for the same number of stages -/
+theorem ceemdLoop_agree (F Fn : Sig → Sig) (mode : Ensemble.Mode) (scale : Rat) (M : List Sig) (thr : Rat)
+    (cap : Option Nat) (x : Sig) : ∀ (fuel : Nat) (cols : List Sig) (k : Nat), cols.length = k + 1 →
+    (specLoop F Fn mode x ((Sift.ceemdLoop (stepNx F Fn mode scale M) thr cap x fuel cols).1.length - cols.length)
+        cols (M.map fun m => residualPow Fn (k + 1) (Sig.smul scale m))).1
+      = (Sift.ceemdLoop (stepNx F Fn mode scale M) thr cap x fuel cols).1 := by
+  intro fuel
+  induction fuel with
+  | zero => intro cols k _; simp [Sift.ceemdLoop, specLoop]
+  | succ fuel ih =>
+    intro cols k hk
+    have hstep : stepNx F Fn mode scale M cols (Sig.sub x (Sig.vsum x.length cols))
+        = stageImf F mode none (Sig.sub x (Sig.vsum x.length cols))
+            (M.map fun m => residualPow Fn (k + 1) (Sig.smul scale m)) := by
+      simp only [stepNx, hk]
+    have hnoise : (M.map fun m => residualPow Fn (k + 1) (Sig.smul scale m)).map (noiseResidual Fn)
+        = M.map fun m => residualPow Fn (k + 1 + 1) (Sig.smul scale m) := by
+      rw [List.map_map]
+      apply List.map_congr_left
+      intro m _
+      simp only [Function.comp]
+      rw [← residualPow_comm]; rfl
+    unfold Sift.ceemdLoop
+    simp only []
+    split
+    · simp only [List.length_append, List.length_singleton, Nat.add_sub_cancel_left, specLoop, hstep]
+    · have hpre := Sift.ceemdLoop_prefix (stepNx F Fn mode scale M) thr cap x fuel
+        (cols ++ [stepNx F Fn mode scale M cols (Sig.sub x (Sig.vsum x.length cols))])
+      have hlen := hpre.length_le
+      have := ih (cols ++ [stepNx F Fn mode scale M cols (Sig.sub x (Sig.vsum x.length cols))]) (k + 1)
+        (by simp [hk])
+      simp only [List.length_append, List.length_singleton] at this hlen
+      have hs : (Sift.ceemdLoop (stepNx F Fn mode scale M) thr cap x fuel
+            (cols ++ [stepNx F Fn mode scale M cols (Sig.sub x (Sig.vsum x.length cols))])).1.length - cols.length
+          = ((Sift.ceemdLoop (stepNx F Fn mode scale M) thr cap x fuel
+            (cols ++ [stepNx F Fn mode scale M cols (Sig.sub x (Sig.vsum x.length cols))])).1.length
+              - (cols.length + 1)) + 1 := by omega
+      rw [hs, specLoop, hnoise, ← hstep]
+      exact this
+
+open Ensemble in
+/-- `Ensemble.ceemd` as the pool-free loop (any valid family of schedules) -/
+theorem ceemd_eq_specLoop (σ : Nat → Schedule) (p : Nat → Nat) (F Fn : Sig → Sig) (mode : Ensemble.Mode)
+    (scale : Rat) (M : List Sig) (x : Sig) (stages : Nat) (hσ : ∀ c, (σ c).Valid M.length (p c)) :
+    Ensemble.ceemd σ F Fn mode scale M x stages =
+      specLoop F Fn mode x stages [stageImf F mode (some scale) x (M.map (Sig.smul scale))]
+        ((M.map (Sig.smul scale)).map (noiseResidual Fn)) := by
+  have hM : (M.map (Sig.smul scale)).length = M.length := by simp
+  unfold Ensemble.ceemd
+  simp only []
+  rw [ceemdImf_eq (σ 0) (p 0) F mode (some scale) x _ (hM ▸ hσ 0),
+    ceemdNoiseStep_eq (σ 1) (p 1) Fn _ (hM ▸ hσ 1)]
+  exact ceemdLoop_eq σ p F Fn mode x M.length hσ stages 2 _ _ (by simp)
+
+open Ensemble in
+/-- **`complete_ensemble_sift`, two models**: whatever the C03 model returns (regular exit by peaks / cap /
+    threshold, or cut off by the fuel), the C08 model run for `out.length − 1` stages returns the same
+    columns — for every valid family of pool schedules. -/
+theorem ceemd_agree (σ : Nat → Schedule) (p : Nat → Nat) (F Fn : Sig → Sig) (mode : Ensemble.Mode)
+    (scale : Rat) (M : List Sig) (thr : Rat) (cap : Option Nat) (x : Sig) (fuel : Nat)
+    (hσ : ∀ c, (σ c).Valid M.length (p c)) :
+    (Ensemble.ceemd σ F Fn mode scale M x
+        ((Sift.ceemd (stepNx F Fn mode scale M) thr cap x fuel).1.length - 1)).1
+      = (Sift.ceemd (stepNx F Fn mode scale M) thr cap x fuel).1 := by
+  rw [ceemd_eq_specLoop σ p F Fn mode scale M x _ hσ]
+  have h0 : stepNx F Fn mode scale M [] x = stageImf F mode (some scale) x (M.map (Sig.smul scale)) := rfl
+  have hn : (M.map (Sig.smul scale)).map (noiseResidual Fn)
+      = M.map fun m => residualPow Fn (0 + 1) (Sig.smul scale m) := by
+    rw [List.map_map]; rfl
+  have key := ceemdLoop_agree F Fn mode scale M thr cap x fuel [stepNx F Fn mode scale M [] x] 0 rfl
+  rw [← h0, hn]
+  unfold Sift.ceemd
+  simp only []
+  cases cap with
+  | none => exact key
+  | some k =>
+    simp only []
+    split
+    · simp [specLoop]
+    · exact key
+
 end ComposeEnsemble
